@@ -22,6 +22,12 @@ CLAIMS = {
  "C10": dict(text="Structural necessary conditions decided on every path: closeSession writes the closing tag only behind the closed-bit test, after setting the bit, with both locks held at every call site and nowhere else; every function that writes through the session encoder passes the closed-bit test under stateMutex with ErrOutputStreamClosed on the other edge; reads are guarded by the input-closed bit; Serve's deferred shutdown, io.EOF mapping and sendError ordering/locking; lock discipline for Session.state and the close-deadline context; typestate of the lock-owning closers (Close unlocks once). Level 'other': the lock/guard shape that idempotent, final closing needs in every interleaving; timing (deadline expiry) is not decided.",
              ref="DESIGN.md section 3, C10", tech="static analysis: edge-dominance, must-lockset dataflow, requires-lock call-site summaries, typestate, must-pass-through",
              note="Trusted: sync primitives, net.Conn deadlines. Known finding F32 (open): stream error not flushed before the closing tag."),
+ "C07": dict(text="Structural necessary conditions decided on every path: the session's default reply is dominated by (IQ) and (get or set) and (no reply detected) and the handler's nil-error edge, is the only write of handleInputStream, and carries the request's id, type error and parsed sender; the reply detector sets its flag only under all five conjuncts, keeps a symmetric depth count, forwards every token, and Encode/EncodeElement route through it; the handler gets the detector; the multiplexer fallback answers only get/set with swapped addresses. Level 'other': 'exactly once, never both, never for replies' follows from these guards for every input element; what user handlers write is not decided.",
+             ref="DESIGN.md section 3, C07", tech="static analysis: edge-dominance with branch facts, exact guard sets, literal/constant checks, parameter flow",
+             note="Trusted: xmlstream.Copy, stanza.IQ.Wrap token order, getIDTyp's local-name matching (documented)."),
+ "C08": dict(text="Structural necessary conditions decided on every path: the handler's reader is InnerElement over the stream-level filter over the locked reader; after the handler every non-error path discards the rest of the element and returns the discard's error; the filter has arms for all six token kinds and errors for PI/comment/directive/non-whitespace top-level text/foreign stream-namespace elements, returns received stream errors as errors, maps the closing tag to io.EOF, counts depth symmetrically; whitespace is ignored; the 'from' normalisation blanks only the compared attribute under its three conditions; the input lock is released on every exit. Level 'other': token-boundary behaviour of xmlstream.InnerElement/encoding/xml is trusted.",
+             ref="DESIGN.md section 3, C08", tech="static analysis: parameter provenance in normal form, type-switch exhaustiveness, edge-dominance, must-pass-through, pending-error dataflow",
+             note="Trusted: mellium.im/xmlstream.InnerElement/Inner/Copy, encoding/xml tokenisation."),
 }
 
 def main():
